@@ -325,6 +325,10 @@ pub struct ImageInfo {
 	pub committed: usize,
 	pub synced: usize,
 	pub cleaned: usize,
+	/// transactions whose records had been applied to the tables
+	pub cleaned_or_enacted: usize,
+	/// id of the last log record applied to the tables at the crash instant
+	pub last_enacted_record: u64,
 	pub had_log: bool,
 	pub cut_inside: bool,
 	pub prefix: Vec<Model>,
@@ -420,11 +424,14 @@ pub fn make_image(sc: &Scenario, sp: &StopPoint, work: &Path, img: &Path) -> Res
 			}
 		}
 	}
+	let last_enacted_record = it.db.as_ref().map_or(0, |d| d.verif_last_enacted());
 	let info = ImageInfo {
 		faulted,
+		last_enacted_record,
 		committed: it.committed,
 		synced: it.stages.synced,
 		cleaned: it.stages.cleaned,
+		cleaned_or_enacted: it.stages.cleaned + it.stages.enacted.len(),
 		had_log,
 		cut_inside,
 		prefix: it.prefix.clone(),
